@@ -297,7 +297,10 @@ func (e *tsEngine) ofIdent(f *Func, id *ast.Ident, depth int) TS {
 				}
 				found = true
 				if len(y.Values) == 0 {
-					out = out.union(tsOf("nil"))
+					// the zero value counts only if some path reads the variable before it is assigned
+					if zeroValueObserved(f, y, obj) {
+						out = out.union(tsOf("nil"))
+					}
 				} else if i < len(y.Values) {
 					out = out.union(e.Of(f, y.Values[i], depth+1))
 				}
@@ -420,4 +423,50 @@ func structOf(t types.Type) *types.Struct {
 	}
 	s, _ := t.Underlying().(*types.Struct)
 	return s
+}
+
+
+// zeroValueObserved: from the declaration `var v T` some path reaches a read of v without passing an assignment to v.
+func zeroValueObserved(f *Func, spec *ast.ValueSpec, obj types.Object) bool {
+	body := f.EnclosingBody(spec)
+	if body == nil {
+		return true
+	}
+	g := body.Graph()
+	loc, ok := g.Locate(spec)
+	if !ok {
+		return true
+	}
+	hit, _ := g.Forward(&loc, nil, func(nn ast.Node, at Loc) Verdict {
+		if as, ok := nn.(*ast.AssignStmt); ok {
+			reads := false
+			for _, r := range as.Rhs {
+				if usesIn(f, r, obj) {
+					reads = true
+				}
+			}
+			if reads {
+				return Hit
+			}
+			for _, l := range as.Lhs {
+				if id, ok := ast.Unparen(l).(*ast.Ident); ok && f.ObjOf(id) == obj {
+					return Cut
+				}
+			}
+			for _, l := range as.Lhs {
+				if usesIn(f, l, obj) {
+					return Hit
+				}
+			}
+			return Go
+		}
+		if nn == ast.Node(spec) {
+			return Go
+		}
+		if usesIn(f, nn, obj) {
+			return Hit
+		}
+		return Go
+	}, nil)
+	return hit
 }
